@@ -1,21 +1,35 @@
 """C11 -- kernel selection is exact and non-instruction lines are transparent.
 
-Theorems: Props/C11.v (static: marked_exact_*, unmarked_whole, noise / line-number transparency of the selection,
-          lines_select_exact, parse_file numbering), PropsGen/C11.v (get_line_range, regenerated by T).
-T: get_line_range is regenerated from osaca/osaca.py on every run (tools/gen_c11.py).
+Theorems: Props/C11.v (static, hand model Model/Select.v: marked_exact_*, unmarked_whole, noise / line-number transparency of
+          the selection, lines_select_exact, parse_file numbering);
+          PropsGen/C11.v (get_line_range), PropsGen/C11gen.v (match_bytes, find_marked_section, the x86 / AArch64 wrappers,
+          reduce_to_section), PropsGen/C11genLines.v (the selection statement of osaca.py:inspect) -- all three over
+          definitions REGENERATED from the current source on every run and proved equal to the hand model.
+T: tools/gen_c11.py -> Gen/LineRange.v; tools/gen_c11b.py -> Gen/MarkerGen.v, Gen/InspectGen.v (fail closed).
 X: (1) reduce_to_section through the real parsers on random files (prologue + marker + body + marker + epilogue with
-       decoys; every marker style; both ISAs) vs Model/Select.v -- the model has two variants of match_bytes
-       (as shipped: greedy; repaired: stops once the nop bytes are read); the tree must agree with one of them on
-       every case;  (2) get_line_range vs the translated Gallina on random --lines strings.
-Oracle: (1) the generator knows the body (independent of model and code); (2) the generator knows the line set;
-       (3) end-to-end metamorphic: osaca.osaca.run on kernel-only file / marked file (each style) / --lines /
-       noise insertions for shipped kernels x non-empty shipped models of their ISA.
+       decoys; every marker style; both ISAs) vs Model/Select.v (two variants of match_bytes: as once shipped = greedy,
+       repaired = stops once the nop bytes are read; the tree must agree with one of them on every case) AND vs the
+       translated g_reduce_to_section;  (2) direct calls of match_bytes / find_marked_section (arguments well beyond what
+       the wrappers pass) and the selection statement of inspect executed in CPython vs their translations;
+       (3) get_line_range vs the translated Gallina on random --lines strings.
+Oracle (the property itself, on observable behaviour only): (a) reduce_to_section: the generator knows the body;
+       (b) end to end: osaca.osaca.run on kernel-only file / marked file (each style) / --lines (plain, unordered, nested,
+       overlapping, duplicated entries) / noise insertions for shipped kernels x non-empty shipped models of their ISA;
+       (c) --lines family: the rows of the report are exactly the named lines and all numbers equal those of a file
+       containing only these lines.
+Verdict: a disagreement of an INTERNAL function (get_line_range's return value, a translated function, a theorem, a
+       translator failure) is a broken obligation, never by itself a violation: it triggers the focused search with
+       (a)-(c); a concrete failing file / --lines argument found there is the violation (replay); otherwise
+       `VIOLATION ... no-failing-input-found` names the broken obligation.
 """
+import ast
+import contextlib
+import io
 import os
-import shutil
 import time
 import vlib
 import gen_c11
+import gen_c11b
 import c11_gen as G
 import c11_e2e as E
 import models
@@ -24,11 +38,20 @@ from vlib import coq_string as cs
 FINISH = dict(level="proof",
               rule="a selection case is non-trivial when the file contains at least one marker or decoy and the kernel is a "
                    "proper, non-empty part of the file; distinct = distinct (isa, kind, start style, end style, #decoys) "
-                   "shapes; a --lines case is non-trivial when it has a range item; an end-to-end case is one "
-                   "(kernel, model, variant) comparison")
+                   "shapes; a --lines case is non-trivial when it has a range item; a direct call of a translated function is "
+                   "counted as one evaluation; an end-to-end case is one (kernel, model, variant) comparison")
 
 KEY_BYTE_HEAD = "kernel-leading-byte-lines-dropped"
 KEY_EPI_RAISE = "byte-operand-after-end-marker-raises"
+
+
+def quiet(fn, *a, **k):
+    """-> ('ok', value) | ('err', exception class name); stdout of the implementation is discarded"""
+    try:
+        with contextlib.redirect_stdout(io.StringIO()):
+            return ("ok", fn(*a, **k))
+    except Exception as e:  # noqa
+        return ("err", type(e).__name__)
 
 
 # ------------------------------------------------------------------------------------------- selection
@@ -38,14 +61,8 @@ def py_reduce(isa, text):
     from osaca.semantics.marker_utils import reduce_to_section
     parser = get_parser(isa)
     parsed = parser.parse_file(text)
-    try:
-        import io
-        import contextlib
-        with contextlib.redirect_stdout(io.StringIO()):
-            k = reduce_to_section(parsed, isa)
-        return parser, parsed, ("ok", [l.line_number for l in k])
-    except Exception as e:  # noqa
-        return parser, parsed, ("err", type(e).__name__)
+    r = quiet(reduce_to_section, parsed, isa)
+    return parser, parsed, (("ok", [l.line_number for l in r[1]]) if r[0] == "ok" else r)
 
 
 def judge_selection(ctx, case, got):
@@ -62,10 +79,16 @@ def judge_selection(ctx, case, got):
     return False
 
 
-def selection(ctx, n_cases):
+def nums(l):
+    return "[%s]" % "; ".join(str(n) for n in l)
+
+
+def selection(ctx, n_cases, have_mgen, keep_files):
+    """-> (model variant matched, [(isa, parser, parsed, term)] of the first keep_files cases)"""
     t0 = time.time()
     cases, skipped, oracle_bad = [], 0, 0
     shapes = {}
+    kept = []
     for c in range(n_cases):
         isa = G.ISAS[c % 2]
         case = G.gen_file(ctx.rng, isa)
@@ -82,6 +105,8 @@ def selection(ctx, n_cases):
                           {"type": "selection", "isa": isa, "kind": case["kind"], "text": case["text"], "expect": case["expect"][1]})
             continue
         cases.append((case, term, exp))
+        if len(kept) < keep_files:
+            kept.append((isa, parser, parsed, term))
         ctx.count()
         if not judge_selection(ctx, case, got):
             oracle_bad += 1
@@ -92,7 +117,7 @@ def selection(ctx, n_cases):
             ctx.nontriv(shape)
         if c < 2:
             ctx.sample({"selection_case": case["kind"], "isa": isa, "text": case["text"], "kernel_lines": got[1]})
-    # model evaluation, <= 250 cases per shard
+    # model evaluation, <= 250 cases per shard; the translated reduce_to_section on the same cases in shards of its own
     shards = []
     for s in range(0, len(cases), 250):
         chunk = cases[s:s + 250]
@@ -100,9 +125,23 @@ def selection(ctx, n_cases):
         text = G.CASE_HEADER + "Definition cases : list (bool * list line * result (list nat)) :=\n [%s].\n" % body + \
             "Eval vm_compute in (show (bad true cases)).\nEval vm_compute in (show (bad false cases)).\n"
         shards.append(("sel_%d" % (s // 250), text))
+    n_model = len(shards)
+    if have_mgen:
+        for s in range(0, len(cases), 250):
+            chunk = cases[s:s + 250]
+            rows = []
+            for c, term, exp in chunk:
+                # the ISA string in the letter case the caller might use (reduce_to_section lower-cases it)
+                name = ctx.rng.choice({"x86": ["x86", "x86", "X86"], "aarch64": ["aarch64", "aarch64", "AArch64", "AARCH64"]}[c["isa"]])
+                po = G.pyout(c["got"], nums)
+                rows.append("(%s, %s, %s)" % (cs(name), term, po))
+            text = G.GEN_HEADER.replace("@INSPECT@", "") + \
+                "Definition cases : list (string * list line * pyout (list nat)) :=\n [%s].\n" % ";\n ".join(rows) + \
+                "Eval vm_compute in (show (idx_bad (fun c => agree nums_eqb (g_reduce_to_section (snd (fst c)) (fst (fst c))) (snd c)) cases)).\n"
+            shards.append(("gsel_%d" % (s // 250), text))
     res = ctx.coq_eval_many(shards, timeout=600)
     bad_g, bad_f, failed = [], [], []
-    for si, (ok, out) in enumerate(res):
+    for si, (ok, out) in enumerate(res[:n_model]):
         if not ok or len(out) != 2:
             failed.append((si, out[0] if out else "no output"))
             continue
@@ -132,6 +171,22 @@ def selection(ctx, n_cases):
                               {"type": "selection-model", "isa": c["isa"], "kind": c["kind"], "text": c["text"], "got": list(c["got"])})
     ctx.obligation("correspondence: reduce_to_section (real parsers) = Model/Select.v on %d random files" % len(cases),
                    "correspondence", variant is not None, detail)
+    if have_mgen:
+        gbad, gfail = [], []
+        for si, (ok, out) in enumerate(res[n_model:]):
+            if not ok or len(out) != 1:
+                gfail.append(out[0] if out else "no output")
+            else:
+                gbad += [si * 250 + int(x) for x in out[0].split(",") if x]
+        d = ""
+        if gfail:
+            d = "evaluation of the translated definitions failed: %s" % gfail[0][-1500:]
+        elif gbad:
+            c = cases[gbad[0]][0]
+            d = "translated reduce_to_section differs from CPython on %d cases; first: %s %s\n%s\nimplementation: %s" % (
+                len(gbad), c["isa"], c["kind"], c["text"], c["got"])
+        ctx.obligation("cross-check: translated reduce_to_section (Gen/MarkerGen.v) = CPython on %d random files" % len(cases),
+                       "correspondence", not gfail and not gbad, d)
     ctx.coverage["selection"] = {"cases": len(cases), "skipped_unparseable": skipped, "model_variant_matched": variant,
                                  "oracle_failures": oracle_bad,
                                  "by_kind": {k: sum(v for s, v in shapes.items() if s[1] == k) for k in sorted({s[1] for s in shapes})},
@@ -140,7 +195,175 @@ def selection(ctx, n_cases):
         len(cases), skipped, variant, oracle_bad, time.time() - t0))
     if skipped > n_cases // 5:
         ctx.obligation("selection generator produces parseable files", "harness", False, "%d of %d skipped" % (skipped, n_cases))
-    return variant
+    return variant, kept
+
+
+def selection_oracle_only(ctx, n_cases):
+    """focused search: more random files through the real parser and reduce_to_section, judged by the generator's knowledge"""
+    bad = 0
+    for c in range(n_cases):
+        isa = G.ISAS[c % 2]
+        case = G.gen_file(ctx.rng, isa)
+        try:
+            _, _, got = py_reduce(isa, case["text"])
+        except Exception:  # noqa
+            continue
+        ctx.count()
+        if got[0] == "err" and got[1] not in ("ValueError", "IndexError"):
+            ctx.violation("reduce-raises-" + got[1], "reduce_to_section raises %s" % got[1],
+                          {"type": "selection", "isa": isa, "kind": case["kind"], "text": case["text"], "expect": case["expect"][1]})
+        elif not judge_selection(ctx, case, got):
+            bad += 1
+    ctx.log("focused search (markers): %d more random files judged by the generator's oracle, %d failures" % (n_cases, bad))
+    return bad
+
+
+# ------------------------------------------------------------------------------------------- translated definitions
+def inspect_statement():
+    """The statement `if args.lines: ... else: ...` of the CURRENT osaca.py:inspect as a Python function
+    (args_lines, parsed_code, isa) -> kernel, executed in osaca.osaca's own namespace.  None if it cannot be isolated."""
+    import osaca.osaca as O
+    try:
+        u = gen_c11b.MUnit(os.path.join(vlib.REPO, "osaca/osaca.py"))
+        f, _ = gen_c11b.inspect_selection(u)
+        ns = dict(vars(O))
+        exec(compile(ast.unparse(f), "<osaca.py:inspect selection statement>", "exec"), ns)
+        return ns["inspect_select"]
+    except Exception:  # noqa
+        return None
+
+
+def direct_calls(ctx, kept, have_mgen, have_igen):
+    """match_bytes / find_marked_section called directly, and the selection statement of inspect executed in CPython,
+    against their translations (Gen/MarkerGen.v, Gen/InspectGen.v) on the parsed files of the selection cases."""
+    if not have_mgen or not kept:
+        return
+    from osaca.semantics import marker_utils as MU
+    stmt = inspect_statement() if have_igen else None
+    t0 = time.time()
+    shards = []
+    meta = []
+    per = 40
+    unmodelled = []
+    for s in range(0, len(kept), per):
+        chunk = kept[s:s + per]
+        files = "[%s]" % ";\n ".join(term for _, _, _, term in chunk)
+        mb_rows, fs_rows, in_rows = [], [], []
+        info = {"mb": [], "fs": [], "ins": []}
+        for k, (isa, parser, parsed, term) in enumerate(chunk):
+            mbs, fss = G.gen_direct_calls(ctx.rng, isa, len(parsed))
+            for idx, bl in mbs:
+                r = quiet(MU.match_bytes, parsed, idx, bl)
+                po = G.pyout(r, lambda v: "(%s, (%d)%%Z)" % ("true" if v[0] else "false", v[1]))
+                ctx.count()
+                if po is None:
+                    unmodelled.append(("match_bytes", r))
+                    continue
+                mb_rows.append("(%d, (%d)%%Z, %s, %s)" % (k, idx, G.zlist(bl), po))
+                info["mb"].append((isa, idx, bl, r))
+            for a in fss:
+                r = quiet(MU.find_marked_section, parsed, parser, a["mov_instr"], a["mov_reg"], a["mov_vals"], a["nop_bytes"],
+                          reverse=a["reverse"], comments=a["comments"])
+                po = G.pyout(r, lambda v: "((%d)%%Z, (%d)%%Z)" % (v[0], v[1]))
+                ctx.count()
+                if po is None:
+                    unmodelled.append(("find_marked_section", r))
+                    continue
+                cm = "None" if a["comments"] is None else "(Some [%s])" % "; ".join("(%s, %s)" % (cs(x), cs(y)) for x, y in a["comments"].items())
+                fs_rows.append("(%d, %s, %s, %s, %s, %s, %s, %s, %s)" % (
+                    k, "true" if isa == "x86" else "false", G.slist(a["mov_instr"]), cs(a["mov_reg"]), G.zlist(a["mov_vals"]),
+                    G.zlist(a["nop_bytes"]), "true" if a["reverse"] else "false", cm, po))
+                info["fs"].append((isa, a, r))
+            if stmt is not None:
+                arg = G.gen_lines_arg(ctx.rng, [l.line_number for l in parsed])
+                r = quiet(stmt, arg, parsed, isa)
+                if r[0] == "ok":
+                    r = ("ok", [l.line_number for l in r[1]])
+                po = G.pyout(r, nums)
+                ctx.count()
+                if po is None:
+                    unmodelled.append(("inspect selection", r))
+                    continue
+                in_rows.append("(%s, %d, %s, %s)" % ("None" if arg is None else "(Some %s)" % cs(arg), k, cs(isa), po))
+                info["ins"].append((isa, arg, r))
+        text = G.GEN_HEADER.replace("@INSPECT@", " Gen.LineRange Gen.InspectGen" if stmt is not None else "") + \
+            "Definition files : list (list line) :=\n %s.\n" % files + \
+            "Definition mb : list (nat * Z * list Z * pyout (bool * Z)) :=\n [%s].\n" % ";\n ".join(mb_rows) + \
+            "Definition fs : list (nat * bool * list string * string * list Z * list Z * bool * option pydict * pyout (Z * Z)) :=\n [%s].\n" % ";\n ".join(fs_rows) + \
+            "Eval vm_compute in (show (idx_bad (fun c => let '(k, i, bl, p) := c in agree bz_eqb (g_match_bytes (file_of files k) i bl) p) mb)).\n" + \
+            "Eval vm_compute in (show (idx_bad (fun c => let '(k, x, mi, mr, mv, nb, rv, cm, p) := c in " \
+            "agree zz_eqb (g_find_marked_section (file_of files k) (pk x) mi mr mv nb rv cm) p) fs)).\n"
+        if stmt is not None:
+            text += "Definition ins : list (option string * nat * string * pyout (list nat)) :=\n [%s].\n" % ";\n ".join(in_rows) + \
+                "Eval vm_compute in (show (idx_bad (fun c => let '(a, k, n, p) := c in agree nums_eqb (g_inspect_select a (file_of files k) n) p) ins)).\n"
+        shards.append(("direct_%d" % (s // per), text))
+        meta.append(info)
+    res = ctx.coq_eval_many(shards, timeout=600)
+    bad = {"mb": [], "fs": [], "ins": []}
+    failed = []
+    n = {"mb": 0, "fs": 0, "ins": 0}
+    exc = {"mb": 0, "fs": 0, "ins": 0}
+    for (ok, out), info in zip(res, meta):
+        for key in n:
+            n[key] += len(info[key])
+            exc[key] += sum(1 for x in info[key] if x[-1][0] == "err")
+        if not ok or len(out) != (3 if stmt is not None else 2):
+            failed.append(out[0] if out else "no output")
+            continue
+        for key, o in zip(("mb", "fs", "ins"), out):
+            bad[key] += [info[key][int(x)] for x in o.split(",") if x]
+    names = {"mb": "match_bytes", "fs": "find_marked_section", "ins": "the selection statement of osaca.py:inspect"}
+    for key in ("mb", "fs") + (("ins",) if stmt is not None else ()):
+        d = ""
+        if failed:
+            d = "evaluation of the translated definitions failed: %s" % failed[0][-1500:]
+        elif bad[key]:
+            d = "%d of %d direct calls differ; first: %s" % (len(bad[key]), n[key], (bad[key][0],))
+        ctx.obligation("cross-check: translated %s = CPython on %d direct calls (%d raise)" % (names[key], n[key], exc[key]),
+                       "correspondence", not failed and not bad[key], d)
+    if have_igen and stmt is None:
+        ctx.obligation("cross-check: the selection statement of osaca.py:inspect can be isolated and executed", "correspondence", False,
+                       "no top-level `if args.lines:` statement in inspect")
+    if unmodelled:
+        ctx.obligation("direct calls raise only modelled exception classes", "correspondence", False, "%s" % (unmodelled[:3],))
+    ctx.coverage["translated_definitions"] = {"files": len(kept), "direct_calls": n, "of_which_raise": exc}
+    ctx.log("translated definitions: %d match_bytes, %d find_marked_section, %d inspect-statement calls vs CPython: %s (%.1fs)" % (
+        n["mb"], n["fs"], n["ins"], "agree" if not failed and not any(bad.values()) else "DISAGREE", time.time() - t0))
+
+
+def marker_translation(ctx, have_line_range):
+    """T for marker_utils.py and the selection statement of inspect -> (MarkerGen available, InspectGen available)"""
+    gen = gen_c11b.generate(vlib.REPO, os.path.join(vlib.COQ, "Gen"))
+    what = {"MarkerGen.v": "match_bytes, find_marked_section, find_marked_kernel_x86ATT/_AArch64, reduce_to_section, COMMENT_MARKER "
+                           "(osaca/semantics/marker_utils.py)",
+            "InspectGen.v": "the selection statement `if args.lines:` of inspect (osaca/osaca.py)"}
+    have = {}
+    for fn in ("MarkerGen.v", "InspectGen.v"):
+        ok, text = gen[fn]
+        ctx.obligation("translate %s from the current source" % what[fn], "translation", ok, "" if ok else text)
+        have[fn] = ok
+    if have["MarkerGen.v"]:
+        c, out, _ = ctx.coqc(os.path.join(vlib.COQ, "Gen", "MarkerGen.v"))
+        ctx.obligation("generated MarkerGen.v type-checks", "translation", c, out)
+        have["MarkerGen.v"] = c
+    thm_ok = False
+    if have["MarkerGen.v"]:
+        thm_ok, _ = ctx.compile_theorems("PropsGen/C11gen.v")
+    else:
+        ctx.obligation("theorems of PropsGen/C11gen.v", "theorem", False, "generated definitions unavailable")
+    if have["InspectGen.v"] and have["MarkerGen.v"] and have_line_range:
+        c, out, _ = ctx.coqc(os.path.join(vlib.COQ, "Gen", "InspectGen.v"))
+        ctx.obligation("generated InspectGen.v type-checks", "translation", c, out)
+        have["InspectGen.v"] = c
+    else:
+        have["InspectGen.v"] = False
+    if have["InspectGen.v"] and thm_ok:
+        ctx.compile_theorems("PropsGen/C11genLines.v")
+    else:
+        ctx.obligation("theorems of PropsGen/C11genLines.v", "theorem", False,
+                       "generated definitions unavailable (inspect statement / get_line_range / marker functions not translated, "
+                       "or PropsGen/C11gen.v does not check)")
+    return have["MarkerGen.v"], have["InspectGen.v"]
 
 
 # ------------------------------------------------------------------------------------------- --lines
@@ -153,7 +376,11 @@ def py_line_range(s):
 
 
 def line_ranges(ctx, n_cases, have_gen):
+    """get_line_range is an INTERNAL function: what it returns is compared (i) with the flat list of named numbers and
+    (ii) with the translated Gallina; a difference is a broken obligation (it starts the focused --lines search),
+    not a violation of the property."""
     cases = []
+    unit_bad = []
     for c in range(n_cases):
         s, exp = G.gen_lines_string(ctx.rng)
         got = py_line_range(s)
@@ -162,17 +389,18 @@ def line_ranges(ctx, n_cases, have_gen):
             if "-" in s or ":" in s:
                 ctx.nontriv(("lines", s))
             if got != ("ok", exp):
-                ctx.violation("line-range-wrong", "get_line_range(%r) = %s, the property demands %s" % (s, got[1], exp),
-                              {"type": "lines", "s": s, "expect": exp})
-        r = G.coq_result(got)
+                unit_bad.append("get_line_range(%r) = %s, expected the named numbers %s" % (s, got[1], exp))
+        r = G.coq_result(got) if got[0] == "err" or all(isinstance(n, int) and not isinstance(n, bool) for n in got[1]) else None
         if r is None:
-            ctx.violation("line-range-raises-" + got[1], "get_line_range(%r) raises %s" % (s, got[1]), {"type": "lines", "s": s, "expect": None})
+            unit_bad.append("get_line_range(%r) -> %s" % (s, got[1] if got[0] == "err" else "a %s that is not a list of ints" % type(got[1]).__name__))
             continue
         if got[0] == "ok":
             r = "(Ok [%s])" % "; ".join("(%d)%%Z" % n for n in got[1])
         cases.append((s, r))
         if c < 2:
             ctx.sample({"lines_string": s, "result": got[1]})
+    ctx.obligation("unit level: get_line_range returns the flat list of the named line numbers on %d --lines strings" % n_cases,
+                   "correspondence", not unit_bad, "%d differ; first: %s" % (len(unit_bad), unit_bad[:3]))
     if not have_gen:
         return
     body = ";\n ".join("(%s, %s)" % (cs(s), r) for s, r in cases)
@@ -190,8 +418,7 @@ def line_ranges(ctx, n_cases, have_gen):
 
 
 # ------------------------------------------------------------------------------------------- end to end
-def end_to_end(ctx, budget_s, n_pairs, n_noise):
-    t0 = time.time()
+def e2e_pairs(ctx, n_pairs):
     kernels = E.shipped_kernels()
     archs = {"x86": [a for a in models.X86], "aarch64": [a for a in models.A64]}
     if ctx.tier != "thorough":
@@ -201,8 +428,8 @@ def end_to_end(ctx, budget_s, n_pairs, n_noise):
     for f in kernels:
         ek = E.extract_kernel(f)
         if ek is not None:
-            usable[f] = ek[0]
-    for f, isa in usable.items():
+            usable[f] = ek
+    for f, (isa, _) in usable.items():
         for a in archs[isa]:
             pairs.append((f, a))
     ctx.rng.shuffle(pairs)
@@ -214,6 +441,41 @@ def end_to_end(ctx, budget_s, n_pairs, n_noise):
                 seen.add(f)
                 pick.append((f, a))
         pairs = (pick + [p for p in pairs if p not in pick])[:n_pairs]
+    return kernels, usable, archs, pairs
+
+
+def lines_family_search(ctx, n_pairs_per_isa, n_random, budget_s):
+    """The --lines oracle on observable behaviour: rows of the report == the named lines, numbers == those of the file
+    containing only these lines; single numbers, a-b, a:b, duplicates, overlapping, NESTED, unordered, adjacent entries."""
+    t0 = time.time()
+    kernels, usable, archs, pairs = e2e_pairs(ctx, None)
+    work = os.path.join(ctx.scratch, "e2e")
+    os.makedirs(work, exist_ok=True)
+    done = {"x86": 0, "aarch64": 0}
+    specs = found = 0
+    for f, a in pairs:
+        isa, ktext = usable[f]
+        if done[isa] >= n_pairs_per_isa or not (6 <= len(ktext) <= 40) or time.time() - t0 > budget_s:
+            continue
+        stats, bad = E.check_lines_specs(ctx, ctx.rng, f, a, work, n_random=n_random)
+        if stats is None:
+            continue
+        done[isa] += 1
+        specs += stats["specs"]
+        ctx.count(stats["specs"])
+        ctx.nontriv(("e2e-lines", os.path.basename(f), a))
+        for tag, spec, what, replay in bad:
+            found += 1
+            ctx.violation("e2e-lines-selects-wrong-lines", "%s on %s, --lines %s (%s): %s" % (os.path.basename(f), a, spec, tag, what), replay)
+    ctx.coverage["lines_family"] = {"pairs": done, "lines_arguments": specs, "failures": found}
+    ctx.log("--lines family (report rows == named lines, numbers == only-these-lines file): %s pairs, %d arguments, %d failures (%.1fs)" % (
+        done, specs, found, time.time() - t0))
+    return found
+
+
+def end_to_end(ctx, budget_s, n_pairs, n_noise):
+    t0 = time.time()
+    kernels, usable, archs, pairs = e2e_pairs(ctx, n_pairs)
     work = os.path.join(ctx.scratch, "e2e")
     os.makedirs(work, exist_ok=True)
     done = comparisons = unstable = 0
@@ -236,7 +498,8 @@ def end_to_end(ctx, budget_s, n_pairs, n_noise):
             vk = name.split("-")[0].split("[")[0]
             replay["type"] = "e2e"
             ctx.violation("e2e-%s-differs-from-kernel-only" % vk,
-                          "%s on %s: variant %s gives a different report than the kernel-only file: %s" % (os.path.basename(f), a, name, diff), replay)
+                          "%s on %s: variant %s %s gives a different report than the kernel-only file: %s" % (
+                              os.path.basename(f), a, name, " ".join(replay["extra_args"]), diff), replay)
     ctx.coverage["end_to_end"] = {"shipped_kernels_usable": len(usable), "of": len(kernels), "kernel_model_pairs_run": done,
                                   "pairs_available": len(pairs), "comparisons": comparisons, "per_isa": per_isa,
                                   "skipped_state_dependent(C18)": unstable, "archs": archs}
@@ -250,7 +513,9 @@ def end_to_end(ctx, budget_s, n_pairs, n_noise):
 def run(ctx):
     ctx.trusted += ["abstraction of parsed lines to Model/Select.v's line type (harness/c11_gen.py: mnemonic, normalize_imd / "
                     "get_full_reg_name of each operand, directive name + parameters, comment, line number)",
-                    "translator tools/gen_c11.py + tools/py2coq.py (fail-closed; cross-checked by the --lines correspondence)",
+                    "translators tools/gen_c11.py, tools/gen_c11b.py (on tools/py2coq.py + tools/gen_c01.py's imperative layer; "
+                    "fail-closed; their output is proved equal to the hand model and cross-checked against CPython each run) and the "
+                    "Python prelude Model/PyMarker.v (typed image of InstructionForm / operands / parser objects; stdout not modelled)",
                     "pyparsing grammars are exercised, not modelled (C09/C10); the deeper pipeline transparency theorem "
                     "(costing / DAG / LCD ignore noise lines) is left to the core model; here it is the end-to-end metamorphic oracle"]
     ctx.assumptions += ["ASCII input; int() literals shorter than Python's 4300-digit limit",
@@ -268,11 +533,21 @@ def run(ctx):
         ctx.compile_theorems("PropsGen/C11.v")
     else:
         ctx.obligation("theorems of PropsGen/C11.v", "theorem", False, "generated definitions unavailable")
-    variant = selection(ctx, ctx.n(400, 3000))
+    have_mgen, have_igen = marker_translation(ctx, compiled)
+    variant, kept = selection(ctx, ctx.n(400, 3000), have_mgen, ctx.n(120, 600))
+    direct_calls(ctx, kept, have_mgen, have_igen)
     line_ranges(ctx, ctx.n(300, 2000), compiled)
     broken = bool(ctx.broken())
+    if broken:
+        # an internal function no longer matches (translator failed closed / theorem broke / unit-level outputs differ):
+        # FIRST look for a concrete failing input on observable behaviour, with inputs focused on what broke
+        ctx.log("broken obligations: %s -- focused search for a concrete failing input" % [o["name"][:60] for o in ctx.broken()][:6])
+        lines_family_search(ctx, n_pairs_per_isa=ctx.n(2, 6), n_random=ctx.n(10, 40), budget_s=ctx.n(60, 400))
+        selection_oracle_only(ctx, ctx.n(1200, 6000))
     # the end-to-end oracle; when something above broke, spend more of the budget searching
     end_to_end(ctx, budget_s=ctx.n(75, 700) * (1.5 if broken else 1), n_pairs=ctx.n(14, None), n_noise=ctx.n(2, 5))
+    if not broken:
+        lines_family_search(ctx, n_pairs_per_isa=ctx.n(1, 8), n_random=ctx.n(4, 20), budget_s=ctx.n(25, 300))
     ctx.coverage["model_variant"] = variant
 
 
@@ -294,6 +569,13 @@ def replay(ctx, obj):
         got = py_line_range(r["s"])
         ctx.log("replay: get_line_range(%r) -> %s ; demanded %s" % (r["s"], got, r["expect"]))
         if r["expect"] is None or got != ("ok", r["expect"]):
+            ctx.violation(obj["key"], obj["what"], r)
+    elif t == "e2e-lines":
+        work = os.path.join(ctx.scratch, "e2e")
+        os.makedirs(work, exist_ok=True)
+        ok, what = E.replay_lines(r, work)
+        ctx.log("replay: --lines %s -> %s" % (r["spec"], what))
+        if not ok:
             ctx.violation(obj["key"], obj["what"], r)
     elif t == "e2e":
         work = os.path.join(ctx.scratch, "e2e")
